@@ -312,7 +312,7 @@ func c04Program(r *verifrt.Rand, kind int) c04prog {
 		}
 	default:
 		p.Name = "mixed"
-		p.Names = append(vfCollidingNames(r, 2, 0), "plain/x", "big/"+strings.Repeat("M", 4000))
+		p.Names = append(vfCollidingNames(r, 2, 0), "plain/x", "big/"+strings.Repeat("M", verifrt.Pick(r, []int{4000, verifref.MaxNameLen - 5, verifref.MaxNameLen - 4}))) // (up to the longest name a record can hold)
 		p.PreFill = r.Intn(4)
 		if (kind/8)%2 == 0 {
 			p.Name = "other-program"
